@@ -2,6 +2,7 @@
    Statements only (about the regenerated definitions C16_*_R), each followed by Print Assumptions.
    Guard of the property: 0 < a, flattening in [1e-6, 0.2], GM > 0, m = w^2 a^2 b/GM < 0.05, heights in [0, a/200];
    the semi-major axis is not restricted to [1e5, 1e8] (the theorems hold for every a > 0).
+   Parts a, b, c (C16_a.v, C16_b.v, C16_c.v) hold the statements whose proofs use the Interval enclosures of e'q0'/q0.
    The f = 0 clause lives in C16_refuted.v (unchanged tree) or C16_sphere.v (tree with fixes/C16-sphere-branch.patch). *)
 From Coq Require Import Reals List Lra.
 From AhrsLib Require Import Base Geodesy.
@@ -26,13 +27,6 @@ Proof.
 Qed.
 Print Assumptions C16_derived_constants.
 
-(* Pizzetti's theorem for the implemented equatorial and polar normal gravity, on the property's domain *)
-Theorem C16_pizzetti : forall a f GM w, 0 < a -> 1/1000000 <= f <= 1/5 -> 0 < GM ->
-  exists ge gp, C16_ge_R a f GM w = Val [ge] /\ C16_gp_R a f GM w = Val [gp] /\
-    2*ge/a + gp/(a*(1-f)) = 3*GM/(a*a*(a*(1-f))) - 2*(w*w).
-Proof. intros a f GM w Ha Hf HG. apply pizzetti. unfold dom. tauto. Qed.
-Print Assumptions C16_pizzetti.
-
 (* the same as a pure field identity: q0 (an arctan expression of e') is an opaque non-zero atom; no interval arithmetic *)
 Theorem C16_pizzetti_field_identity : forall a f GM w, a <> 0 -> f <> 1 -> GM <> 0 ->
   let x := sqrt ((a^2 - (a*(1-f))^2) / (a*(1-f))^2) in
@@ -42,79 +36,11 @@ Theorem C16_pizzetti_field_identity : forall a f GM w, a <> 0 -> f <> 1 -> GM <>
 Proof. intros a f GM w Ha Hf HG x Hx Hq. exact (pizzetti_any_q a f GM w Ha Hf HG Hx Hq). Qed.
 Print Assumptions C16_pizzetti_field_identity.
 
-(* positivity of ge, gp and of normal gravity at every latitude and every height up to 0.5 % of a *)
-Theorem C16_positivity : forall a f GM w lat h, 0 < a -> 1/1000000 <= f <= 1/5 -> 0 < GM ->
-  w*w*(a*a)*(a*(1-f))/GM < 1/20 -> 0 <= h <= a/200 ->
-  exists ge gp g, C16_ge_R a f GM w = Val [ge] /\ C16_gp_R a f GM w = Val [gp] /\ C16_g_R a f GM w lat h = Val [g] /\
-    0 < ge /\ 0 < gp /\ 0 < g.
-Proof.
-  intros a f GM w lat h Ha Hf HG Hm Hh. assert (D : dom a f GM) by (unfold dom; tauto).
-  destruct (ge_gp_positive a f GM w D Hm) as (ge & gp & H1 & H2 & P1 & P2).
-  exists ge, gp, (gamma a f GM w lat h). repeat split; try assumption.
-  - apply g_closed; exact D.
-  - apply gamma_pos; assumption.
-Qed.
-Print Assumptions C16_positivity.
-
-(* Somigliana: latitude 0 gives ge, latitude +-90 gives gp (both through the explicit h = 0 and the default argument) *)
-Theorem C16_somigliana_equator_pole : forall a f GM w, 0 < a -> 1/1000000 <= f <= 1/5 -> 0 < GM ->
-  w*w*(a*a)*(a*(1-f))/GM < 1/20 ->
-  exists ge gp, C16_ge_R a f GM w = Val [ge] /\ C16_gp_R a f GM w = Val [gp] /\
-    C16_g_R a f GM w 0 0 = Val [ge] /\ C16_g_R a f GM w 90 0 = Val [gp] /\ C16_g_R a f GM w (-90) 0 = Val [gp] /\
-    C16_g0_R a f GM w 0 = Val [ge] /\ C16_g0_R a f GM w 90 = Val [gp] /\ C16_g0_R a f GM w (-90) = Val [gp].
-Proof.
-  intros a f GM w Ha Hf HG Hm. assert (D : dom a f GM) by (unfold dom; tauto).
-  exists (gE a f GM w), (gP a f GM w). destruct (gamma_pole a f GM w D Hm) as [Q1 Q2].
-  rewrite !g_closed, !g0_closed, (gamma_equator a f GM w D), Q1, Q2 by exact D.
-  repeat split. - apply ge_closed; exact D. - apply gp_closed; exact D.
-Qed.
-Print Assumptions C16_somigliana_equator_pole.
-
 (* symmetric in latitude: for ALL inputs, on every branch *)
 Theorem C16_symmetric_in_latitude : forall a f GM w lat h,
   C16_g_R a f GM w (- lat) h = C16_g_R a f GM w lat h /\ C16_g0_R a f GM w (- lat) = C16_g0_R a f GM w lat.
 Proof. intros. split; [apply g_symmetric|apply g0_symmetric]. Qed.
 Print Assumptions C16_symmetric_in_latitude.
-
-(* strictly decreasing with height on [0, 0.5 % of a], the range of the second-order height formula *)
-Theorem C16_decreasing_with_height : forall a f GM w lat h1 h2, 0 < a -> 1/1000000 <= f <= 1/5 -> 0 < GM ->
-  w*w*(a*a)*(a*(1-f))/GM < 1/20 -> 0 <= h1 -> h1 < h2 -> h2 <= a/200 ->
-  exists g1 g2, C16_g_R a f GM w lat h1 = Val [g1] /\ C16_g_R a f GM w lat h2 = Val [g2] /\ g2 < g1.
-Proof.
-  intros a f GM w lat h1 h2 Ha Hf HG Hm H1 H12 H2. assert (D : dom a f GM) by (unfold dom; tauto).
-  exists (gamma a f GM w lat h1), (gamma a f GM w lat h2). rewrite !g_closed by exact D.
-  repeat split. apply gamma_decreasing; assumption.
-Qed.
-Print Assumptions C16_decreasing_with_height.
-
-(* close to the rotating-sphere values GM(1 - 3m/2)/(ab), GM(1 + m)/a^2: explicit constants, and the sharp one-sided
-   enclosure 0 <= e'q0'/q0 - 3 <= (3/2) e'^2 which makes the distance vanish like m e'^2 *)
-Theorem C16_near_sphere : forall a f GM w, 0 < a -> 1/1000000 <= f <= 1/5 -> 0 < GM ->
-  exists ge gp, C16_ge_R a f GM w = Val [ge] /\ C16_gp_R a f GM w = Val [gp] /\
-    let m := w*w*(a*a)*(a*(1-f))/GM in let b := a*(1-f) in let x2 := (a^2 - b^2)/b^2 in
-    Rabs (ge - GM*(1 - 3*m/2)/(a*b)) <= 3/20 * m * GM/(a*b) /\
-    Rabs (gp - GM*(1 + m)/(a*a)) <= 3/10 * m * GM/(a*a) /\
-    GM*(1 - 3*m/2 - m*x2/4)/(a*b) <= ge <= GM*(1 - 3*m/2)/(a*b) /\
-    GM*(1 + m)/(a*a) <= gp <= GM*(1 + m + m*x2/2)/(a*a).
-Proof.
-  intros a f GM w Ha Hf HG. assert (D : dom a f GM) by (unfold dom; tauto).
-  destruct (near_sphere a f GM w D) as (ge & gp & H1 & H2 & B1 & B2).
-  destruct (near_sphere_sharp a f GM w D) as (ge' & gp' & H1' & H2' & B3 & B4).
-  rewrite H1 in H1'. rewrite H2 in H2'. injection H1' as <-. injection H2' as <-.
-  exists ge, gp. split; [exact H1|]. split; [exact H2|]. cbv zeta in *. unfold mof, ges2 in *. tauto.
-Qed.
-Print Assumptions C16_near_sphere.
-
-(* continuity towards f -> 0, PARTIAL on the unchanged tree (it speaks of the limit values, not of the f = 0 branch):
-   ge and gp are within O(f) of the rotating-sphere values of the sphere of radius a, m0 = w^2 a^3/GM *)
-Theorem C16_continuity_to_sphere_partial : forall a f GM w, 0 < a -> 1/1000000 <= f <= 1/5 -> 0 < GM ->
-  w*w*(a*a*a)/GM <= 1/16 ->
-  exists ge gp, C16_ge_R a f GM w = Val [ge] /\ C16_gp_R a f GM w = Val [gp] /\
-    let m0 := w*w*(a*a*a)/GM in
-    Rabs (ge - GM*(1 - 3*m0/2)/(a*a)) <= 13/10 * f * (GM/(a*a)) /\
-    Rabs (gp - GM*(1 + m0)/(a*a)) <= 3 * m0 * f * (GM/(a*a)).
-Proof. intros a f GM w Ha Hf HG Hm. apply continuity_to_sphere; [unfold dom; tauto|exact Hm]. Qed.
-Print Assumptions C16_continuity_to_sphere_partial.
 
 (* international_gravity, all five epochs: latitude guard, equator and pole values, symmetry, range, positivity *)
 Theorem C16_international_gravity :
